@@ -433,6 +433,8 @@ def events_equal(e1: list, e2: list):
                 eq = famcmp.value_eq(ka[k], vb)
             except Unsupported as exc:
                 return False, f'{a.extra["fn"]}({k}=...): {exc}'
+            except famcmp.ShapeMismatch as exc:
+                return False, f'{a.extra["fn"]}({k}=...) is built from different sources: {exc}'
             if eq is False:
                 return False, f'{a.extra["fn"]}: argument {k} differs structurally'
             parts.append(z3.Implies(z_and(*cons, z_bool(a.guard)), z_bool(eq)))
